@@ -832,17 +832,27 @@ func c19DecodeWorker(args []string) int {
 			return 0
 		}
 		f := strings.Fields(line)
-		if len(f) != 2 {
-			fmt.Fprintln(out, "bad-request")
-			out.Flush()
-			continue
-		}
 		unhex := func(s string) []byte {
 			if s == "-" {
 				return nil
 			}
 			b, _ := hex.DecodeString(s)
 			return b
+		}
+		if len(f) == 3 && f[0] == "count" { // number of values the decoder materialises
+			v, derr := c19Decode(unhex(f[1]), unhex(f[2]))
+			if derr != nil {
+				fmt.Fprintln(out, "err")
+			} else {
+				fmt.Fprintf(out, "nodes %d\n", c19CountNodes(v))
+			}
+			out.Flush()
+			continue
+		}
+		if len(f) != 2 {
+			fmt.Fprintln(out, "bad-request")
+			out.Flush()
+			continue
 		}
 		v, derr := c19Decode(unhex(f[0]), unhex(f[1]))
 		switch {
@@ -854,6 +864,88 @@ func c19DecodeWorker(args []string) int {
 			fmt.Fprintln(out, "err")
 		}
 		out.Flush()
+	}
+}
+
+func c19CountNodes(v variant.Value) int {
+	n := 1
+	switch v.Basic() {
+	case variant.BasicObject:
+		for _, f := range v.ObjectValue().Fields {
+			n += c19CountNodes(f.Value)
+		}
+	case variant.BasicArray:
+		for _, e := range v.ArrayValue().Elements {
+			n += c19CountNodes(e)
+		}
+	}
+	return n
+}
+
+// c19Bomb: an object whose n fields all start at offset 0 of its value area, where the next such
+// object sits (object field values may be listed in any order, so the decoder accepts overlapping
+// fields): `depth` levels cost depth*(2n+4)+1 input bytes and decode to n^depth values.
+func c19Bomb(n, depth int) (meta, value []byte) {
+	var b variant.MetadataBuilder
+	for i := 0; i < n; i++ {
+		b.Add(fmt.Sprintf("k%02d", i))
+	}
+	_, meta = b.Build()
+	value = []byte{0x00}
+	for d := 0; d < depth; d++ {
+		hdr := []byte{0x02 | 1<<2, byte(n)} // object, 2-byte offsets, 1-byte ids
+		for i := 0; i < n; i++ {
+			hdr = append(hdr, byte(i))
+		}
+		for i := 0; i < n; i++ {
+			hdr = append(hdr, 0, 0)
+		}
+		hdr = append(hdr, byte(len(value)), byte(len(value)>>8))
+		value = append(hdr, value...)
+	}
+	return
+}
+
+// c19AmplificationProbe: a well-formed encoding spends at least one byte per value, so a decoder
+// that materialises more values than the input has bytes is doing work (and allocating memory)
+// exponential in the input size. Run isolated, with a timeout.
+func c19AmplificationProbe(ctx *core.Ctx) {
+	w, err := c19StartWorker()
+	if err != nil {
+		ctx.Fail("L2", "worker-unavailable", "cannot start the decoder worker: "+err.Error(), nil)
+		return
+	}
+	defer func() { w.kill() }()
+	for _, c := range [][2]int{{2, 3}, {4, 4}, {8, 5}, {8, 6}} {
+		meta, value := c19Bomb(c[0], c[1])
+		t0 := time.Now()
+		ans := w.ask("count "+core.Hex(meta)+" "+core.Hex(value), 20*time.Second)
+		dt := time.Since(t0)
+		ctx.Case("bomb "+core.Hex(value), true)
+		detail := map[string]any{"metadata_hex": core.Hex(meta), "value_hex": core.Hex(value), "fields_per_level": c[0], "levels": c[1],
+			"input_bytes": len(value), "answer": ans, "decode_ms": dt.Milliseconds(),
+			"growth": "each further level adds 2*fields+4 bytes and multiplies time and memory by `fields` (8 fields: 225 bytes take 8 s, 281 bytes about 9 minutes and tens of GB)"}
+		var nodes int
+		switch {
+		case ans == "timeout" || ans == "crash":
+			ctx.Hist("malformed.amplification", ans)
+			ctx.Fail("L1", "decoder-exponential-overlapping-object-fields", "variant.Decode does not return on a small malformed input ("+ans+")", detail)
+			w.kill()
+			if w, err = c19StartWorker(); err != nil {
+				return
+			}
+		case ans == "err":
+			ctx.Hist("malformed.amplification", "rejected")
+		default:
+			fmt.Sscanf(ans, "nodes %d", &nodes)
+			if nodes > 4*len(value) {
+				ctx.Hist("malformed.amplification", "amplified")
+				ctx.Fail("L1", "decoder-exponential-overlapping-object-fields",
+					fmt.Sprintf("variant.Decode materialises %d values from a %d-byte input (object fields that overlap): time and memory are exponential in the input size, a few hundred bytes hang the decoder", nodes, len(value)), detail)
+			} else {
+				ctx.Hist("malformed.amplification", "linear")
+			}
+		}
 	}
 }
 
@@ -972,13 +1064,18 @@ func c19RunMalformed(ctx *core.Ctx, d *drv.Driver, cases []c19Malformed) {
 
 // ---------------------------------------------------------------- the sub-check
 
+const c19Rule = "codec: random variant value trees (21 primitive kinds with boundary pools, objects/arrays of 0..300 entries, " +
+	"depth <= 6, >255 dictionary keys, value areas of 254..257 and 65534..65537 bytes (16 MiB for Go only), unicode/empty/long keys, " +
+	"dictionaries in sorted/reverse/random insertion order) + a mutated/random malformed stream; distinct by the " +
+	"insertion-ordered value text; non-trivial = container, string, binary or decimal (or any malformed input). " +
+	"shredding: random shredding schemas (none/primitive/list/object, depth <= 3, 19 leaf types) x rows aimed at the schema " +
+	"(matches, type mismatches, residual and missing fields, decimals around the precision bound) x 6 write paths, each file " +
+	"read through 4 read paths; distinct by schema + write path + row texts; non-trivial = the column has a typed_value"
+
 func RunC19Codec(ctx *core.Ctx) {
-	ctx.SetRule("random variant value trees (21 primitive kinds with boundary pools, objects/arrays of 0..300 entries, " +
-		"depth <= 6, >255 dictionary keys, value areas of 254..257 and 65534..65537 bytes, unicode/empty/long keys, " +
-		"dictionaries in sorted/reverse/random insertion order) + a mutated/random malformed stream; distinct by the " +
-		"insertion-ordered value text; non-trivial = container, string, binary or decimal (or any malformed input)")
+	ctx.SetRule(c19Rule)
 	nw := 8
-	total := ctx.Scale(20000, 600000)
+	total := ctx.Scale(20000, 400000)
 	var wg sync.WaitGroup
 	var mu sync.Mutex
 	var malformed []c19Malformed
@@ -1051,6 +1148,8 @@ func RunC19Codec(ctx *core.Ctx) {
 		}
 		wg2.Wait()
 	}
+
+	c19AmplificationProbe(ctx)
 
 	// note (not a failure of C19): variant.Float stores a float32 as float64; that conversion quiets
 	// signalling NaNs, so a signalling float32 NaN payload cannot be represented in a variant.Value.
